@@ -9,11 +9,20 @@
 //! antisymmetry of cmp, transitivity of both on triples, equal keys hash alike (std `Hash` call sequence and
 //! `get_hash()`), construction-path independence, permutation independence when label names are distinct,
 //! racing first `get_hash()` calls.
+//!
+//! Round 2: `mix` (threads calling `clone()` and first `get_hash()` on one shared lazily hashed key under token
+//! passing over the yield points of `get_hash` and of the `Cow::clone` calls inside `Key::clone`; the clone's memo
+//! fields are read from its `Debug` output), `ceq`/`ccmp` (`CompositeKey` with every pair of kinds), `leq`/`lcmp`/
+//! `scmp`/`nhash` (`Label`, `SharedString`, `KeyName` on their own).  Oracles added: `==`/`cmp`/`partial_cmp`/`Hash`
+//! of never-hashed keys before, between and after their first `get_hash()`; labels from `&BTreeMap`/`&HashMap`;
+//! `Borrow<str> for KeyName`; clones taken while first `get_hash()` calls race; strings with long common
+//! prefixes/suffixes and equal lengths.
 use crate::util::*;
 use metrics::{Counter, Gauge, Histogram, Key, KeyHasher, KeyName, Label, Metadata, Recorder, SharedString, Unit};
 use metrics_util::{CompositeKey, DefaultHashable, Hashable, MetricKind};
 use std::cell::RefCell;
 use std::cmp::Ordering;
+use std::collections::{BTreeMap, HashMap};
 use std::hash::{Hash, Hasher};
 use std::sync::atomic::{AtomicUsize, Ordering as AO};
 use std::sync::Arc;
@@ -192,6 +201,10 @@ fn variants(c: &Content, r: &mut Rng, arena: &Arena) -> Vec<(&'static str, Key)>
         let other = Key::from_static_parts("other", static_labels(ls));
         v.push(("from_parts(labels() iter)", Key::from_parts(name.clone(), other.labels())));
     }
+    {
+        let other = Key::from_parts("other", owned_labels(ls));
+        v.push(("from_parts(labels() iter of a built key)", Key::from_parts(Arc::<str>::from(name.as_str()), other.labels())));
+    }
     // with_extra_labels at a few split points (n = all labels extra … 0 = none extra → the clone branch)
     let mut splits = vec![0, n, n / 2, r.below(n + 1)];
     splits.sort();
@@ -286,6 +299,106 @@ fn is_perm(a: &Content, b: &Content) -> bool {
     a.0 == b.0 && x == y
 }
 
+/// construction paths whose memo is empty until the first get_hash()
+fn is_lazy_path(p: &str) -> bool {
+    p.starts_with("from_static_parts") || p.starts_with("from_static_labels(S") || p.starts_with("from_static_labels(A") || p == "from_static_name"
+        || p == "clone(static,unhashed)" || p == "macro literal (static)" || p == "macro literal name"
+}
+/// a brand-new key that nobody has hashed yet
+fn fresh_lazy(c: &Content, how: usize) -> Key {
+    match how {
+        0 => Key::from_static_parts(leak_str(&c.0), static_labels(&c.1)),
+        1 => Key::from_static_labels(c.0.clone(), static_labels(&c.1)),
+        _ => Key::from_static_labels(Arc::<str>::from(c.0.as_str()), static_labels(&c.1)),
+    }
+}
+
+/// `Label`, `KeyName` and `SharedString` on their own: ==, cmp, partial_cmp, <, Hash, in every representation
+fn parts_laws(contents: &[Content], r: &mut Rng, out: &mut Out) {
+    let mut labels: Vec<(String, String)> = contents.iter().flat_map(|c| c.1.iter().cloned()).collect();
+    labels.sort();
+    labels.dedup();
+    let mk = |kv: &(String, String), how: usize| -> Label {
+        match how % 3 {
+            0 => Label::new(kv.0.clone(), kv.1.clone()),
+            1 => Label::from_static_parts(leak_str(&kv.0), leak_str(&kv.1)),
+            _ => Label::new(Arc::<str>::from(kv.0.as_str()), Arc::<str>::from(kv.1.as_str())),
+        }
+    };
+    let rec = |l: &Label| { let mut h = RecHasher::default(); l.hash(&mut h); list(h.calls) };
+    for _ in 0..6.min(labels.len() * labels.len()) {
+        let (a, b) = (r.pick(&labels).clone(), r.pick(&labels).clone());
+        let (la, lb) = (mk(&a, r.below(3)), mk(&b, r.below(3)));
+        let (e, c) = (la == lb, la.cmp(&lb));
+        let tok = |kv: &(String, String)| format!("{}:{}", hexs(&kv.0), hexs(&kv.1));
+        out.op(&format!("key leq {} {}", tok(&a), tok(&b)), if e { "1" } else { "0" });
+        out.op(&format!("key lcmp {} {}", tok(&a), tok(&b)), ord_str(c));
+        let what = format!("{:?} vs {:?}", a, b);
+        if e != (c == Ordering::Equal) || e != (a == b) || la.partial_cmp(&lb) != Some(c) || (la < lb) != (c == Ordering::Less)
+            || (la > lb) != (c == Ordering::Greater) || (la <= lb) != (c != Ordering::Greater) || lb.cmp(&la) != c.reverse() || (lb == la) != e
+        {
+            out.oracle_fail("Label: ==, cmp, partial_cmp, <, > disagree", &format!("{} : == {}, cmp {:?}, partial_cmp {:?}, < {}", what, e, c, la.partial_cmp(&lb), la < lb));
+        }
+        if e && rec(&la) != rec(&lb) {
+            out.oracle_fail("equal Labels hash differently", &what);
+        }
+        out.count_n("label pairs compared", 1);
+    }
+    let mut strs: Vec<String> = contents.iter().map(|c| c.0.clone()).collect();
+    for c in contents {
+        for (k, v) in &c.1 {
+            strs.push(k.clone());
+            strs.push(v.clone());
+        }
+    }
+    strs.sort();
+    strs.dedup();
+    let ss = |s: &str, how: usize| -> SharedString {
+        match how % 3 {
+            0 => SharedString::from_owned(s.to_string()),
+            1 => SharedString::const_str(leak_str(s)),
+            _ => SharedString::from_shared(Arc::<str>::from(s)),
+        }
+    };
+    let mut map: HashMap<KeyName, usize> = HashMap::new();
+    for (i, s) in strs.iter().enumerate() {
+        map.insert(KeyName::from(ss(s, i)), i);
+    }
+    for (i, s) in strs.iter().enumerate() {
+        // Borrow<str> for KeyName: a map keyed by KeyName is looked up with a plain &str
+        if map.get(s.as_str()) != Some(&i) {
+            out.oracle_fail("Borrow<str> for KeyName: lookup by &str misses the entry", &format!("{:?}", s));
+        }
+    }
+    for _ in 0..6 {
+        let (a, b) = (r.pick(&strs).clone(), r.pick(&strs).clone());
+        let (sa, sb) = (ss(&a, r.below(3)), ss(&b, r.below(3)));
+        let (na, nb) = (KeyName::from(ss(&a, r.below(3))), KeyName::from(ss(&b, r.below(3))));
+        let c = sa.cmp(&sb);
+        out.op(&format!("key scmp {} {}", hexs(&a), hexs(&b)), ord_str(c));
+        let what = format!("{:?} vs {:?}", a, b);
+        if c != a.as_bytes().cmp(b.as_bytes()) || sa.partial_cmp(&sb) != Some(c) || (sa == sb) != (c == Ordering::Equal) || (sa < sb) != (c == Ordering::Less)
+            || (sa > sb) != (c == Ordering::Greater) || sb.cmp(&sa) != c.reverse()
+        {
+            out.oracle_fail("SharedString: ==, cmp, partial_cmp, < disagree (or differ from str)", &format!("{} : cmp {:?}, partial_cmp {:?}, == {}", what, c, sa.partial_cmp(&sb), sa == sb));
+        }
+        if na.cmp(&nb) != c || na.partial_cmp(&nb) != Some(c) || (na == nb) != (c == Ordering::Equal) || (na < nb) != (c == Ordering::Less) {
+            out.oracle_fail("KeyName: ==, cmp, partial_cmp, < disagree (or differ from str)", &format!("{} : cmp {:?}, == {}", what, na.cmp(&nb), na == nb));
+        }
+        let mut h1 = RecHasher::default();
+        na.hash(&mut h1);
+        let mut h2 = RecHasher::default();
+        a.as_str().hash(&mut h2);
+        let mut h3 = RecHasher::default();
+        sa.hash(&mut h3);
+        out.op(&format!("key nhash {}", hexs(&a)), &list(h1.calls.clone()));
+        if h1.calls != h2.calls || h3.calls != h2.calls {
+            out.oracle_fail("Hash for KeyName / SharedString differs from Hash for str (Borrow<str> would be unlawful)", &format!("{:?}", a));
+        }
+        out.count_n("string pairs compared", 1);
+    }
+}
+
 /// `extra`: further keys (from literal macros) to be treated as variants of content `extra.0`
 fn examine(contents: &[Content], extra: Vec<(usize, &'static str, Key)>, r: &mut Rng, out: &mut Out) {
     let m = contents.len();
@@ -306,6 +419,53 @@ fn examine(contents: &[Content], extra: Vec<(usize, &'static str, Key)>, r: &mut
         out.count(&format!("labels={}", if c.1.len() >= 8 { "8+".to_string() } else { c.1.len().to_string() }));
         if !names_distinct(c) {
             out.count("content with repeated label name");
+        }
+        // pass 1 — BEFORE anything calls get_hash() on the lazily hashed variants (from_static_parts,
+        // from_static_labels, from_static_name, clone of an unhashed key, the literal macros): `==`, `cmp`,
+        // `partial_cmp` and std `Hash` must not depend on whether the memo has been filled
+        let lazy: Vec<usize> = vs.iter().enumerate().filter(|(_, (p, _))| is_lazy_path(p)).map(|(i, _)| i).collect();
+        for (vi, (p, k)) in vs.iter().enumerate() {
+            let what = format!("construction path `{}` (before any get_hash()) differs from `{}` for {}", p, vs[0].0, show(c));
+            if !(k == &vs[0].1) || !(&vs[0].1 == k) || k != k {
+                out.oracle_fail("construction-path: == before first get_hash", &what);
+            }
+            if k.cmp(&vs[0].1) != Ordering::Equal || vs[0].1.cmp(k) != Ordering::Equal || k.partial_cmp(&vs[0].1) != Some(Ordering::Equal) {
+                out.oracle_fail("construction-path: cmp before first get_hash", &format!("{}: {:?}", what, k.cmp(&vs[0].1)));
+            }
+            if std_stream(k) != s0 {
+                out.oracle_fail("construction-path: std Hash call sequence before first get_hash", &what);
+            }
+            // unhashed against unhashed
+            for &li in lazy.iter().filter(|&&li| li != vi).take(3) {
+                let l = &vs[li].1;
+                if !(k == l) || !(l == k) || k.cmp(l) != Ordering::Equal || l.cmp(k) != Ordering::Equal {
+                    out.oracle_fail("construction-path: ==/cmp between two keys before their first get_hash",
+                        &format!("`{}` vs `{}` for {}: == {}, cmp {:?}", p, vs[li].0, show(c), k == l, k.cmp(l)));
+                }
+                out.count_n("unhashed-vs-unhashed comparisons", 1);
+            }
+        }
+        // label collections whose iteration order is not the given order (maps): equal when names are distinct
+        if names_distinct(c) {
+            let bm: BTreeMap<String, String> = c.1.iter().cloned().collect();
+            let hm: HashMap<String, String> = c.1.iter().cloned().collect();
+            let sm: BTreeMap<&'static str, Arc<str>> = c.1.iter().map(|(k, v)| (leak_str(k), Arc::<str>::from(v.as_str()))).collect();
+            let from_maps = [
+                ("from_parts(&BTreeMap<String,String>)", Key::from_parts(c.0.clone(), &bm)),
+                ("from_parts(&HashMap<String,String>)", Key::from_parts(c.0.clone(), &hm)),
+                ("from_parts(&BTreeMap<&'static str,Arc<str>>)", Key::from_parts(leak_str(&c.0), &sm)),
+            ];
+            for (p, k) in from_maps.iter() {
+                let mut got: Vec<(String, String)> = k.labels().map(|l| (l.key().to_string(), l.value().to_string())).collect();
+                let mut want = c.1.clone();
+                got.sort();
+                want.sort();
+                if k != &vs[0].1 || &vs[0].1 != k || k.cmp(&vs[0].1) != Ordering::Equal || std_stream(k) != s0 || k.get_hash() != g0 || got != want || k.name() != c.0 {
+                    out.oracle_fail("construction-path: labels from a map (distinct names) give a different key",
+                        &format!("`{}` for {}: == {}, cmp {:?}, same stream {}, same get_hash {}, same label set {}", p, show(c), k == &vs[0].1, k.cmp(&vs[0].1), std_stream(k) == s0, k.get_hash() == g0, got == want));
+                }
+                out.count_n("variants built", 1);
+            }
         }
         for (p, k) in vs.iter() {
             out.count_n("variants built", 1);
@@ -370,10 +530,52 @@ fn examine(contents: &[Content], extra: Vec<(usize, &'static str, Key)>, r: &mut
                     out.count("pair: equal, different content");
                 }
             }
-            // the derived impls of metrics-util's CompositeKey inherit the same laws
-            let (ca, cb) = (CompositeKey::new(MetricKind::Counter, ka.clone()), CompositeKey::new(MetricKind::Counter, kb.clone()));
-            if (ca == cb) != (ca.cmp(&cb) == Ordering::Equal) {
-                out.oracle_fail("CompositeKey eq-cmp incoherent", &pair);
+            // the same pair as freshly built, never hashed keys (what the literal macros hand out): same verdicts,
+            // before and after their first get_hash()
+            {
+                let fa = fresh_lazy(&contents[i], r.below(3));
+                let fb = fresh_lazy(&contents[j], r.below(3));
+                let before = (fa == fb, fa.cmp(&fb), fa == *kb, fa.cmp(kb), *ka == fb, ka.cmp(&fb), fa.partial_cmp(&fb));
+                let _ = fa.get_hash();
+                let half = (fa == fb, fa.cmp(&fb), fa == *kb, fa.cmp(kb), *ka == fb, ka.cmp(&fb), fa.partial_cmp(&fb));
+                let _ = fb.get_hash();
+                let after = (fa == fb, fa.cmp(&fb), fa == *kb, fa.cmp(kb), *ka == fb, ka.cmp(&fb), fa.partial_cmp(&fb));
+                let want = (e, c, e, c, e, c, Some(c));
+                if before != want || half != want || after != want {
+                    out.oracle_fail("==/cmp of a lazily hashed key depends on whether get_hash() has been called",
+                        &format!("{} : hashed keys say == {}, cmp {:?}; never-hashed keys (a==b, a.cmp(b), a==B, a.cmp(B), A==b, A.cmp(b), partial_cmp): before {:?}, after a.get_hash() {:?}, after both {:?}", pair, e, c, before, half, after));
+                }
+                if e && fa.get_hash() != fb.get_hash() {
+                    out.oracle_fail("equal keys, different get_hash()", &format!("{} (freshly built static keys)", pair));
+                }
+                out.count_n("pairs of never-hashed keys compared", 1);
+            }
+            // the derived impls of metrics-util's CompositeKey inherit the same laws — with every pair of kinds
+            {
+                let kinds = [MetricKind::Counter, MetricKind::Gauge, MetricKind::Histogram];
+                let kt = ["c", "g", "h"];
+                let (xa, xb) = if r.chance(1, 2) { (r.below(3), r.below(3)) } else { let x = r.below(3); (x, x) };
+                let (ca, cb) = (CompositeKey::new(kinds[xa], ka.clone()), CompositeKey::new(kinds[xb], kb.clone()));
+                let (ce, cc) = (ca == cb, ca.cmp(&cb));
+                out.op(&format!("key ceq {} {} {} {}", kt[xa], key_tok(&contents[i]), kt[xb], key_tok(&contents[j])), if ce { "1" } else { "0" });
+                out.op(&format!("key ccmp {} {} {} {}", kt[xa], key_tok(&contents[i]), kt[xb], key_tok(&contents[j])), ord_str(cc));
+                let cpair = format!("{:?}/{:?} {}", kinds[xa], kinds[xb], pair);
+                if ce != (cc == Ordering::Equal) {
+                    out.oracle_fail("CompositeKey eq-cmp incoherent", &format!("{} : == {}, cmp {:?}", cpair, ce, cc));
+                }
+                if ce != (xa == xb && e) {
+                    out.oracle_fail("CompositeKey == is not (same kind and equal keys)", &format!("{} : == {}", cpair, ce));
+                }
+                if cc != xa.cmp(&xb).then(c) || ca.partial_cmp(&cb) != Some(cc) || cb.cmp(&ca) != cc.reverse() || (cb == ca) != ce {
+                    out.oracle_fail("CompositeKey cmp is not (kind, key) lexicographic / not antisymmetric", &format!("{} : {:?}", cpair, cc));
+                }
+                let sh = |k: &CompositeKey| { let mut h = RecHasher::default(); k.hash(&mut h); list(h.calls) };
+                if ce && (sh(&ca) != sh(&cb) || DefaultHashable(ca.clone()).hashable() != DefaultHashable(cb.clone()).hashable()) {
+                    out.oracle_fail("equal CompositeKeys hash differently", &cpair);
+                }
+                if xa != xb {
+                    out.count("composite pair: different kinds");
+                }
             }
             if i != j && is_perm(&contents[i], &contents[j]) {
                 if names_distinct(&contents[i]) {
@@ -424,6 +626,7 @@ fn examine(contents: &[Content], extra: Vec<(usize, &'static str, Key)>, r: &mut
             }
         }
     }
+    parts_laws(contents, r, out);
     if contents.iter().any(|c| c.1.len() >= 2) {
         out.nontrivial();
     }
@@ -433,27 +636,41 @@ fn examine(contents: &[Content], extra: Vec<(usize, &'static str, Key)>, r: &mut
 fn race(c: &Content, nthreads: usize, rounds: usize, r: &mut Rng, out: &mut Out, shared: Option<&'static Key>) {
     let reference = Key::from_parts(c.0.clone(), owned_labels(&c.1)).get_hash();
     for round in 0..rounds {
+        // from_static_parts, from_static_labels with an owned name (its clone allocates), … with an Arc name
         let key: &'static Key = match (shared, round) {
             (Some(k), 0) => k,
-            _ => Box::leak(Box::new(Key::from_static_parts(leak_str(&c.0), static_labels(&c.1)))),
+            _ => Box::leak(Box::new(fresh_lazy(c, round + r.below(3)))),
         };
         let ready = Arc::new(AtomicUsize::new(0));
         let handles: Vec<_> = (0..nthreads)
-            .map(|_| {
+            .map(|t| {
                 let ready = ready.clone();
                 std::thread::spawn(move || {
                     ready.fetch_add(1, AO::SeqCst);
                     while ready.load(AO::SeqCst) < nthreads {
                         std::hint::spin_loop();
                     }
+                    // every other thread clones FIRST, i.e. while the others are inside their first get_hash()
+                    let early = if t % 2 == 1 { Some(key.clone()) } else { None };
                     let first = key.get_hash();
                     let again = key.get_hash();
                     let cl = key.clone().get_hash();
-                    (first, again, cl)
+                    let early_ok = match early {
+                        Some(e) => e == *key && e.cmp(key) == Ordering::Equal && memo_of(&e).map_or(true, |(f, v)| !f || v == first) && e.get_hash() == first,
+                        None => true,
+                    };
+                    (first, again, cl, early_ok)
                 })
             })
             .collect();
-        let res: Vec<(u64, u64, u64)> = handles.into_iter().map(|h| h.join().unwrap()).collect();
+        let res4: Vec<(u64, u64, u64, bool)> = handles.into_iter().map(|h| h.join().unwrap()).collect();
+        for (t, x) in res4.iter().enumerate() {
+            if !x.3 {
+                out.oracle_fail("clone() taken while first get_hash() calls were racing differs from the original",
+                    &format!("{} thread {} of {}: the clone is not ==, or carries hashed=true with a wrong hash, or its get_hash() differs from {:#x}", show(c), t, nthreads, x.0));
+            }
+        }
+        let res: Vec<(u64, u64, u64)> = res4.iter().map(|x| (x.0, x.1, x.2)).collect();
         let sched: Vec<String> = (0..r.below(3 * nthreads + 1)).map(|_| r.below(nthreads).to_string()).collect();
         let ans = list(res.iter().map(|(f, _, _)| if *f == reference { "ok".to_string() } else { format!("bad:{}", f) }));
         out.op(&format!("key race static {} {} {}", key_tok(c), nthreads, list(sched)), &ans);
@@ -606,6 +823,115 @@ fn scheduled(_: &Content, _: &str, _: usize, _: &[usize], out: &mut Out) {
     out.count("scheduled get_hash runs skipped (hook verif_key_hook absent)");
 }
 
+/// the memo fields of a key as its `Debug` output shows them (`…, hashed: true, hash: 123 }`); they are the last two
+/// fields, so the LAST occurrence of `, hashed: ` is the real one whatever the strings of the key contain
+fn memo_of(k: &Key) -> Option<(bool, u64)> {
+    let d = format!("{:?}", k);
+    let i = d.rfind(", hashed: ")?;
+    let (f, rest) = d[i + 10..].split_once(", hash: ")?;
+    let v = rest.trim_end_matches(|ch| ch == ' ' || ch == '}').parse::<u64>().ok()?;
+    match f {
+        "true" => Some((true, v)),
+        "false" => Some((false, v)),
+        _ => None,
+    }
+}
+
+/// threads with roles `h` (first `get_hash()`) and `c` (`clone()`) on one shared, lazily hashed key, run exactly
+/// under `schedule` by token passing over the yield points of `get_hash` and of the `Cow::clone` calls inside
+/// `Key::clone` (every thread parks at a harness-side `start` point first, so that nothing at all runs unscheduled)
+#[cfg(has_cow_hook)]
+fn mixed(c: &Content, kind: &str, build: usize, roles: &[u8], schedule: &[usize], out: &mut Out) {
+    let reference = Key::from_parts(c.0.clone(), owned_labels(&c.1)).get_hash();
+    let key: &'static Key = Box::leak(Box::new(fresh_lazy(c, build)));
+    if kind == "prehashed" {
+        let _ = key.get_hash();
+    }
+    let n = roles.len();
+    let rv = roles.to_vec();
+    let (trace, res) = sched::run(n, schedule, move |t| {
+        sched::point("start");
+        if rv[t] == b'h' {
+            (Some(key.get_hash()), None)
+        } else {
+            (None, Some(key.clone()))
+        }
+    });
+    let show_res = |x: &(Option<u64>, Option<Key>)| match x {
+        (Some(v), _) => if *v == reference { "ok".to_string() } else { format!("bad:{}", v) },
+        (_, Some(cl)) => match memo_of(cl) {
+            None => "memo:unreadable".to_string(),
+            Some((false, _)) => "fresh".to_string(),
+            Some((true, v)) => if v == reference { "memo:ok".to_string() } else { format!("memo:bad:{}", v) },
+        },
+        _ => "nothing".to_string(),
+    };
+    out.op(
+        &format!("key mix {} {} {} {}", kind, key_tok(c), list(roles.iter().map(|x| (*x as char).to_string())), list(trace.iter().map(|(t, _)| t.to_string()))),
+        &format!("{} {}", list(trace.iter().map(|(t, id)| format!("{}:{}", t, id))), list(res.iter().map(show_res))),
+    );
+    out.count("scheduled clone/get_hash runs");
+    let after = key.get_hash();
+    let how = ["from_static_parts", "from_static_labels(String)", "from_static_labels(Arc)"][build % 3];
+    for (t, x) in res.iter().enumerate() {
+        let ctx = || format!("{} ({} key, {}), roles {}, grants {:?}", show(c), kind, how, String::from_utf8_lossy(roles), trace);
+        match x {
+            (Some(v), _) => {
+                if *v != reference || after != reference {
+                    out.oracle_fail("get_hash() returned a different value under a schedule",
+                        &format!("{}: thread {} returned {:#x}, a later call {:#x}; a fresh identical key has {:#x}", ctx(), t, v, after, reference));
+                }
+            }
+            (_, Some(cl)) => {
+                let memo = memo_of(cl);
+                let eq = cl == key && key == cl && cl.cmp(key) == Ordering::Equal && std_stream(cl) == std_stream(key);
+                let gh = cl.get_hash();
+                if !eq || gh != reference || cl.get_hash() != gh || matches!(memo, Some((true, v)) if v != reference) {
+                    out.oracle_fail("clone() racing with a first get_hash(): the clone is not a faithful copy",
+                        &format!("{}: thread {}'s clone has memo (hashed, hash) = {:?}, clone == original: {}, clone.get_hash() = {:#x}, original.get_hash() = {:#x}, a fresh identical key has {:#x}",
+                            ctx(), t, memo, eq, gh, after, reference));
+                }
+                // clone of the clone, and the empty-extra-labels path which is documented to clone
+                let cl2 = cl.with_extra_labels(vec![]);
+                if cl2 != *key || cl2.get_hash() != reference {
+                    out.oracle_fail("with_extra_labels(vec![]) of a clone differs from the original", &ctx());
+                }
+            }
+            _ => {}
+        }
+    }
+}
+#[cfg(not(has_cow_hook))]
+fn mixed(_: &Content, _: &str, _: usize, _: &[u8], _: &[usize], out: &mut Out) {
+    out.count("scheduled clone/get_hash runs skipped (cow-clone hook absent)");
+}
+
+/// every sequence that contains id `t` exactly `counts[t]` times
+fn all_interleavings(counts: &[usize]) -> Vec<Vec<usize>> {
+    fn go(left: &mut Vec<usize>, cur: &mut Vec<usize>, acc: &mut Vec<Vec<usize>>) {
+        if left.iter().all(|&x| x == 0) {
+            acc.push(cur.clone());
+            return;
+        }
+        for t in 0..left.len() {
+            if left[t] > 0 {
+                left[t] -= 1;
+                cur.push(t);
+                go(left, cur, acc);
+                cur.pop();
+                left[t] += 1;
+            }
+        }
+    }
+    let mut acc = Vec::new();
+    go(&mut counts.to_vec(), &mut Vec::new(), &mut acc);
+    acc
+}
+/// grants a thread needs at most: start + 3 for a first get_hash(); start + 2 `Cow::clone` points for a clone()
+fn grants_of(roles: &[u8]) -> Vec<usize> {
+    roles.iter().map(|x| if *x == b'h' { 4 } else { 3 }).collect()
+}
+
 /// all interleavings of `n` first calls (each call is at most 3 steps): every sequence with each id 3 times
 fn all_schedules(n: usize) -> Vec<Vec<usize>> {
     fn go(left: &mut Vec<usize>, cur: &mut Vec<usize>, acc: &mut Vec<Vec<usize>>) {
@@ -661,19 +987,48 @@ fn gen_contents(r: &mut Rng, out: &mut Out) -> Vec<Content> {
     }
     let distinct_mode = r.chance(1, 3);
     out.count(if distinct_mode { "mode: distinct label names" } else { "mode: names from a pool of 3" });
-    let pick3 = |r: &mut Rng, src: &[&'static str]| -> Vec<&'static str> { (0..3).map(|_| *r.pick(src)).collect() };
+    // a third of the cases: every string of the case gets one long common prefix (or suffix) of 7…64 bytes, and
+    // in half of those is padded to one common length — so that distinct strings of the case have the same length
+    // and agree on their first (last) 8, 16, 24, 32 … bytes, the region where word-wise comparison or hashing and
+    // small-string special cases would go wrong
+    let stretch: Option<(usize, bool, bool)> =
+        if r.chance(1, 3) { Some((*r.pick(&[7usize, 8, 9, 15, 16, 17, 23, 24, 25, 31, 32, 33, 40, 64]), r.chance(1, 2), r.chance(1, 4))) } else { None };
+    if let Some((p, pad, suffix)) = stretch {
+        out.count(&format!("strings: common {} of {} bytes{}", if suffix { "suffix" } else { "prefix" }, if p < 16 { "7-15" } else if p < 32 { "16-31" } else { "32+" }, if pad { ", equal lengths" } else { "" }));
+    }
+    let tr = |s: &str| -> String {
+        match stretch {
+            None => s.to_string(),
+            Some((p, pad, suffix)) => {
+                let common: String = "abcdefghijklmnopqrstuvwxyz0123456789".chars().cycle().take(p).collect();
+                let mut core = s.to_string();
+                if pad {
+                    while core.len() < 8 {
+                        core.push('~');
+                    }
+                }
+                if suffix { format!("{}{}", core, common) } else { format!("{}{}", common, core) }
+            }
+        }
+    };
+    let pick3 = |r: &mut Rng, src: &[&'static str]| -> Vec<String> { (0..3).map(|_| tr(*r.pick(src))).collect() };
     let names = pick3(r, LNAMES);
     let vals = pick3(r, LVALS);
-    let knames = [*r.pick(KNAMES), *r.pick(KNAMES)];
-    let mut dn: Vec<&'static str> = DISTINCT.to_vec();
+    let mut knames = [tr(*r.pick(KNAMES)), tr(*r.pick(KNAMES))];
+    if r.chance(1, 4) {
+        // key names outside the seven literals
+        knames[r.below(2)] = wild_string(r, false);
+        out.count("key name: generated string");
+    }
+    let mut dn: Vec<String> = DISTINCT.iter().map(|s| tr(s)).collect();
     for i in (1..dn.len()).rev() {
         dn.swap(i, r.below(i + 1));
     }
     let draw = |r: &mut Rng, n: usize| -> Vec<(String, String)> {
         (0..n)
             .map(|i| {
-                let k = if distinct_mode { dn[i % dn.len()] } else { *r.pick(&names) };
-                (k.to_string(), r.pick(&vals).to_string())
+                let k = if distinct_mode { if i < dn.len() { dn[i].clone() } else { format!("{}#{}", dn[i % dn.len()], i / dn.len()) } } else { r.pick(&names).clone() };
+                (k, r.pick(&vals).to_string())
             })
             .collect()
     };
@@ -718,7 +1073,8 @@ fn gen_contents(r: &mut Rng, out: &mut Out) -> Vec<Content> {
     }
     // an independent draw, mostly the same name and length
     let n2 = if r.chance(2, 3) { n } else if n > 0 && r.chance(1, 2) { n - 1 } else { n + 1 };
-    let indep: Content = (if r.chance(3, 4) { knames[0] } else { knames[1] }.to_string(), draw(r, n2));
+    // with stretched strings the two key names differ only after a long common prefix: use the second one more often
+    let indep: Content = (if r.chance(if stretch.is_some() { 2 } else { 3 }, 4) { &knames[0] } else { &knames[1] }.to_string(), draw(r, n2));
     // the base with ONE string replaced by a proper prefix / an extension of itself (so that, built from one
     // static buffer, the two strings start at the same address and differ only in length)
     let mut pfx = base.clone();
@@ -804,6 +1160,45 @@ fn macro_literal_case(r: &mut Rng, out: &mut Out) {
 pub fn run(cfg: &Cfg, out: &mut Out) {
     let root = Rng::new(cfg.seed);
     let mut idx = 0u64;
+    // the deterministic schedules come first, so that a replay file starts with a witness that replays exactly
+    {
+        // small scope, exhaustively: every interleaving of 2 (thorough: and 3) first calls
+        out.case("corpus all-schedules");
+        out.count("corpus cases");
+        out.nontrivial();
+        let k = c("n", &[("b", "2"), ("a", "1"), ("c", "3")]);
+        for n in 2..=(if cfg.thorough { 3 } else { 2 }) {
+            for s in all_schedules(n) {
+                scheduled(&k, "static", n, &s, out);
+            }
+        }
+        scheduled(&k, "built", 2, &[0, 1, 0, 1], out);
+    }
+    {
+        // small scope, exhaustively: one clone() against one first get_hash(), every interleaving (35), for each of
+        // the three lazily hashed construction paths; thorough: also two hashers / two cloners (11550 + 4200)
+        out.case("corpus all-schedules clone-vs-get_hash");
+        out.count("corpus cases");
+        out.nontrivial();
+        let k = c("request_duration_seconds", &[("b", "2"), ("a", "1"), ("c", "3")]);
+        for build in 0..3 {
+            for s in all_interleavings(&grants_of(b"ch")) {
+                mixed(&k, "static", build, b"ch", &s, out);
+            }
+        }
+        mixed(&k, "prehashed", 1, b"chc", &[0, 1, 2, 2, 1, 0, 0, 1, 2], out);
+        // the interleaving in which a clone that loads `hash` before `hashed` would copy (true, 0)
+        mixed(&k, "static", 1, b"ch", &[0, 1, 1, 1, 1, 0, 0], out);
+        mixed(&k, "static", 1, b"hcc", &[1, 2, 1, 0, 0, 0, 0, 1, 2, 2], out);
+        if cfg.thorough {
+            for s in all_interleavings(&grants_of(b"chh")) {
+                mixed(&k, "static", 1, b"chh", &s, out);
+            }
+            for s in all_interleavings(&grants_of(b"cch")) {
+                mixed(&k, "static", 0, b"cch", &s, out);
+            }
+        }
+    }
     for contents in corpus() {
         let mut r = root.fork(1_000_000 + idx);
         out.case(&format!("corpus {}", idx));
@@ -818,19 +1213,6 @@ pub fn run(cfg: &Cfg, out: &mut Out) {
         out.count("corpus cases");
         macro_literal_case(&mut r, out);
     }
-    {
-        // small scope, exhaustively: every interleaving of 2 (thorough: and 3) first calls
-        out.case("corpus all-schedules");
-        out.count("corpus cases");
-        out.nontrivial();
-        let k = c("n", &[("b", "2"), ("a", "1"), ("c", "3")]);
-        for n in 2..=(if cfg.thorough { 3 } else { 2 }) {
-            for s in all_schedules(n) {
-                scheduled(&k, "static", n, &s, out);
-            }
-        }
-        scheduled(&k, "built", 2, &[0, 1, 0, 1], out);
-    }
     for i in 0..cfg.cases {
         let mut r = root.fork(i as u64);
         out.case(&format!("seed={} i={}", cfg.seed, i));
@@ -841,6 +1223,26 @@ pub fn run(cfg: &Cfg, out: &mut Out) {
             let s = random_schedule(&mut r, n);
             let which = r.below(contents.len());
             scheduled(&contents[which], if r.chance(1, 6) { "built" } else { "static" }, n, &s, out);
+        }
+        {
+            // clone() and first get_hash() callers mixed, random roles and schedule
+            let n = r.range(2, 5);
+            let mut roles: Vec<u8> = (0..n).map(|_| if r.chance(1, 2) { b'h' } else { b'c' }).collect();
+            roles[0] = b'c';
+            roles[1] = b'h';
+            let s: Vec<usize> = match r.below(3) {
+                0 => (0..4 * n).map(|i| i % n).collect(),
+                1 => {
+                    // the cloner takes its first step(s), then somebody hashes completely, then the rest
+                    let mut s = vec![0; r.range(1, 2)];
+                    s.extend(vec![1; 4]);
+                    s.extend((0..r.range(0, 3 * n)).map(|_| r.below(n)));
+                    s
+                }
+                _ => (0..r.range(0, 5 * n)).map(|_| r.below(n)).collect(),
+            };
+            let which = r.below(contents.len());
+            mixed(&contents[which], if r.chance(1, 8) { "prehashed" } else { "static" }, r.below(3), &roles, &s, out);
         }
         let nthreads = r.range(2, if cfg.thorough { 8 } else { 6 });
         let which = r.below(contents.len());
